@@ -4,6 +4,7 @@ import Driver.SchemaDesc
 import JSV.Model.Marshal
 import JSV.Model.Clone
 import JSV.Model.Defaults
+import JSV.Model.Infer
 import JSV.Model.Equal
 import JSV.Model.Hash
 import JSV.Model.Unmarshal
@@ -142,6 +143,45 @@ def marshalOut (st : Store) (root : NodeId) : Lean.Json :=
   | .err => outcome "marshal-error"
   | .panic => outcome "panic"
   | .fuel => outcome "fuel"
+
+/-- structural type descriptor (harness describeType) → GoType; `none` = uses a feature the model does not cover -/
+partial def decodeGoType (j : Lean.Json) : Except String (Option Go.GoType) := do
+  let k ← j.getObjValAs? String "k"
+  let sub (key : String) : Except String (Option Go.GoType) := decodeGoType ((j.getObjVal? key).toOption.getD .null)
+  match k with
+  | "basic" =>
+    let kind ← j.getObjValAs? String "kind"
+    pure (some (.basic kind))
+  | "opaque" => pure (some (.basic "Opaque"))
+  | "ref" => pure (some (.ref (← j.getObjValAs? String "name")))
+  | "named" =>
+    match ← sub "u" with
+    | some u => pure (some (.named (← j.getObjValAs? String "name") u))
+    | none => pure none
+  | "ptr" => pure ((← sub "e").map .ptr)
+  | "slice" => pure ((← sub "e").map .slice)
+  | "array" =>
+    let n ← j.getObjValAs? Nat "n"
+    pure ((← sub "e").map (.array n))
+  | "map" =>
+    let key ← j.getObjValAs? String "key"
+    pure ((← sub "e").map (.map (if key == "string" then "String" else key)))
+  | "struct" =>
+    let fs ← match j.getObjVal? "fields" with
+      | .ok (.arr xs) => pure xs.toList
+      | _ => throw "fields"
+    let mut out : List (String × String × Go.GoType) := []
+    for f in fs do
+      let name ← f.getObjValAs? String "name"
+      let tag ← f.getObjValAs? String "tag"
+      let emb := (f.getObjValAs? Bool "embedded").toOption.getD false
+      let exported := (f.getObjValAs? Bool "exported").toOption.getD true
+      if emb then return none
+      match ← decodeGoType ((f.getObjVal? "t").toOption.getD .null) with
+      | some t => out := out ++ [(name, if exported then tag else "json:\"-\"", t)]
+      | none => return none
+    pure (some (.struct out))
+  | other => throw s!"type descriptor {other}"
 
 def handleValidate (args : Lean.Json) : Except String Lean.Json := do
   let base := ((getArg args "base").getStr?).toOption.getD ""
@@ -291,6 +331,37 @@ def handle (op : String) (args : Lean.Json) : Except String Lean.Json := do
       | .fuel => pure (Lean.Json.mkObj [("model", outcome "fuel")])
     | .err => pure (Lean.Json.mkObj [("model", outcome "unmarshal-error")])
     | _ => pure (Lean.Json.mkObj [("model", outcome "panic")])
+  | "infer" =>
+    match ← decodeGoType (getArg args "structure") with
+    | none => pure (Lean.Json.mkObj [("model", outcome "unmodelled")])
+    | some t =>
+      let o := getArg args "opts"
+      let ignore := (o.getObjValAs? Bool "ignore").toOption.getD false
+      -- the initial table: one schema {type: string} shared by the standard-library marshaler types
+      let (ss, st0) := Store.alloc (#[] : Store) { type := "string" }
+      let mut st := st0
+      let mut tbl : List (String × NodeId) :=
+        ["time.Time", "slog.Level", "big.Int", "big.Rat", "big.Float"].map fun n => (n, ss)
+      match o.getObjVal? "typeSchemas" with
+      | .ok (.arr xs) =>
+        for x in xs do
+          let tn ← x.getObjValAs? String "tname"
+          let doc ← decodeJson ((x.getObjVal? "schema").toOption.getD .null)
+          match Go.unmarshal doc st with
+          | .ok (r, st') =>
+            st := st'
+            tbl := (tbl.filter fun (e : String × NodeId) => e.1 != tn) ++ [(tn, r)]
+          | _ => throw "typeSchemas entry does not unmarshal"
+      | _ => pure ()
+      match Go.forType { ignore := ignore, schemas := tbl } 64 t st with
+      | .ok (some id, st') =>
+        match Go.marshal st' id with
+        | .ok j => pure (Lean.Json.mkObj [("model", outcome "ok" [("value", encodeJson j)])])
+        | _ => pure (Lean.Json.mkObj [("model", outcome "marshal-error")])
+      | .ok (none, _) => pure (Lean.Json.mkObj [("model", outcome "nil")])
+      | .err => pure (Lean.Json.mkObj [("model", outcome "error")])
+      | .panic => pure (Lean.Json.mkObj [("model", outcome "panic")])
+      | .fuel => pure (Lean.Json.mkObj [("model", outcome "fuel")])
   | "validate" => handleValidate args
   | "decorate" =>
     let ra ← handleValidate args
